@@ -54,6 +54,10 @@ type history struct {
 	// NilCtx: the scanner is created with a nil context (documented as allowed):
 	// Close is then the only way to stop it, and it has to work all the same.
 	NilCtx bool
+	// Stalled: the input stalls (a Read that does not return) before file block 3
+	// until the consumer has seen Scan return false: a cancellation from another
+	// goroutine must end the Scan in progress although the reader is parked.
+	Stalled bool
 }
 
 func (h history) name() string {
@@ -66,6 +70,9 @@ func (h history) name() string {
 	}
 	if h.NilCtx {
 		d += " nil-context"
+	}
+	if h.Stalled {
+		d += " stalled-input"
 	}
 	return fmt.Sprintf("%s%s procs=%d scans=%d headerAt=%d stop=%s post=%s", h.Format, d, h.Procs, h.K, h.HeaderAt, stopNames[h.Stop], h.Post)
 }
@@ -177,6 +184,9 @@ func scenario(h history, bound int) vexplore.Scenario {
 					if h.Damaged {
 						rd.Data = pbfDamaged
 					}
+					if h.Stalled {
+						rd.Gate, rd.GateAt = vsched.MakeChan[struct{}](0), 3
+					}
 					ps = osmpbf.New(ctx, rd, h.Procs)
 					s = ps
 				} else {
@@ -224,6 +234,9 @@ func scenario(h history, bound int) vexplore.Scenario {
 				}
 				if ended {
 					errBeforeStop = s.Err()
+				}
+				if rd.Gate != nil {
+					rd.Gate.Close() // the stalled Read returns now
 				}
 				phase = "stopping"
 				stopIssued = true
@@ -432,7 +445,7 @@ func postSeqs(maxLen int, alphabet string) []string {
 func main() {
 	kit.Main("C07", "model_checking", func(r *kit.Run) {
 		r.Rule("call histories (Header|Scan)^k ; stop in {Close, cancel, cancel from a second thread, cancel then Close, Close then cancel} ; post calls over {Scan, Err, Close, Header}; " +
-			"family N: scanners created with a nil context, stopped by Close, D=1; family E: damaged input (error recorded, then stop: Err keeps the earlier error), D=1; family S: fixed post sequence SECSEH, k in a grid, every schedule with <= D deviations, both priority configurations; family H: every post sequence of length <= 2 (quick) / 3 (thorough) and every k, default schedules (D=0); " +
+			"family T: the input stalls before the third data block until Scan has returned false, cancel from a second thread (a parked reader must not keep the Scan in progress from ending), D=1; family N: scanners created with a nil context, stopped by Close, D=1; family E: damaged input (error recorded, then stop: Err keeps the earlier error), D=1; family S: fixed post sequence SECSEH, k in a grid, every schedule with <= D deviations, both priority configurations; family H: every post sequence of length <= 2 (quick) / 3 (thorough) and every k, default schedules (D=0); " +
 			"PBF input: header + 6 data blocks, XML input: 6 nodes and two 1.6 KB stretches of unknown elements and comments, read in 160-byte chunks; non-vacuous = the stop was issued with >= 4 file blocks unread (PBF) or before the end (XML); " +
 			"distinct_nontrivial = distinct complete operation sequences among non-vacuous executions")
 		r.Assume("promptness is a block count: the reader may begin at most 2 file blocks after the cancellation took effect (measured atomically at the cancelling operation); wall-clock latency is not measured")
@@ -511,6 +524,11 @@ func main() {
 				continue
 			}
 			scs = append(scs, scenario(history{Format: "xml", Procs: 1, HeaderAt: -1, Stop: stop, Post: "SECSE", Damaged: true}, 1))
+		}
+		// family T: stalled input + cancel from a second thread (D=1 lets the canceller run
+		// when everything else is parked on the stalled read)
+		for _, p := range []int{1, 2} {
+			scs = append(scs, scenario(history{Format: "pbf", Procs: p, K: 0, HeaderAt: -1, Stop: stopCancelOther, Post: "SE", Stalled: true}, 1))
 		}
 		// family N: nil context, stopped by Close
 		for _, k := range []int{0, 1, 3, N + 1} {
